@@ -4,14 +4,15 @@ package main
 // The S-expression forms mirror the Lean types GoType / GoVal (AvroModel/Build.lean, Codec.lean).
 
 import (
-	"strings"
 	"encoding/hex"
 	"fmt"
 	"math"
 	"reflect"
 	"sort"
 	"strconv"
+	"strings"
 	"time"
+	"unsafe"
 
 	"github.com/unravelin/null/v5"
 )
@@ -278,6 +279,12 @@ func dumpVal(v reflect.Value) sx {
 	}
 	switch t.Kind() {
 	case reflect.Bool:
+		if v.CanAddr() {
+			// a Go bool holds 0 or 1; anything else is not a value of the type (and compares unequal to true and false)
+			if raw := *(*byte)(unsafe.Pointer(v.UnsafeAddr())); raw > 1 {
+				return T("invalid-bool", I(int64(raw)))
+			}
+		}
 		return T("bool", boolSx(v.Bool()))
 	case reflect.Int, reflect.Int8, reflect.Int16, reflect.Int32, reflect.Int64:
 		return T("int", I(v.Int()))
